@@ -17,6 +17,7 @@ pub mod c13;
 pub mod c14;
 pub mod c15;
 pub mod c16;
+pub mod c17;
 pub mod c18;
 pub mod c19;
 pub mod c20;
@@ -44,6 +45,7 @@ pub fn dispatch(cmd: &str, id: &str, pos: &[String], flags: &HashMap<String, Str
         "C14" => run_prop::<c14::C14>(cmd, pos, flags),
         "C15" => run_prop::<c15::C15>(cmd, pos, flags),
         "C16" => run_prop::<c16::C16>(cmd, pos, flags),
+        "C17" => run_prop::<c17::C17>(cmd, pos, flags),
         "C18" => run_prop::<c18::C18>(cmd, pos, flags),
         "C19" => run_prop::<c19::C19>(cmd, pos, flags),
         "C20" => run_prop::<c20::C20>(cmd, pos, flags),
